@@ -4,7 +4,7 @@
 From Coq Require Import List ZArith Bool.
 From Coq.Strings Require Import Byte.
 Import ListNotations.
-From SV Require Import Text G_codes C05_Model C13_Model C13_Rx C13_Lemmas C13_Once C13_Depth C13_RxLemmas C13_GapMap C13_RxComplete C13_Occur.
+From SV Require Import Text G_codes C05_Model C13_Model C13_Rx C13_Lemmas C13_Once C13_Depth C13_RxLemmas C13_GapMap C13_RxComplete C13_Occur C13_WordTree.
 Local Open Scope Z_scope.
 
 (* P0 span_contains_match + frames, for every match reported by matchall: forward matches come first, then backward ones;
@@ -521,3 +521,25 @@ Theorem C13_rx_reported : forall m s start gap rfn,
         (matchall_m m s rfn start gap)).
 Proof. exact reported_m. Qed.
 Print Assumptions C13_rx_reported.
+
+(* the two matchers are one: the word matcher of the earlier rounds (ordered alternation of compiled words, "[gap]*" between the
+   letters) is the regex-tree matcher on the tree of the word list, without and with gap tolerance; hence match()/matchall() for
+   start / stop / codon lists is the generic pipeline over the tree matcher and every rx_ theorem applies to them *)
+Theorem C13_word_matcher_is_tree_matcher : forall gap ws s, ws <> [] ->
+  forallb (fun w => nonempty w && forallb wordch w) ws = true ->
+  m_rx (eff_rx gap (rx_of_list ws)) s = m_alts (map (compile_word gap) ws) s.
+Proof. exact words_tree. Qed.
+Print Assumptions C13_word_matcher_is_tree_matcher.
+
+Theorem C13_matchall_words_tree : forall s sub rf start gap, wf_sub sub = true ->
+  matchall s sub rf start gap =
+  option_map (fun rfn => matchall_m (m_rx (eff_rx gap (rx_of_list (words sub)))) s rfn start gap) (norm_rf rf).
+Proof. exact matchall_words_tree. Qed.
+Print Assumptions C13_matchall_words_tree.
+
+(* gap tolerance as the property states it, for pattern trees whose characters are residues: every reported group, with its gap
+   characters removed, is matched by the ORIGINAL pattern *)
+Theorem C13_rx_group_degapped : forall g r s rfn start x, gapfree g r = true -> 0 <= start ->
+  In x (matchall_m (m_rx (eff_rx (Some g) r)) s rfn start (Some g)) -> lang r (degap g (bm_group x)).
+Proof. exact rx_group_degapped. Qed.
+Print Assumptions C13_rx_group_degapped.
